@@ -20,13 +20,16 @@ RULE = ("operation histories (<= 30 ops quick, <= 45 thorough, plus an observati
         "thorough adds every sequence of <= 3 symbolic mutators from two base namespaces; "
         "non-trivial = the history removes, re-adds, reorders or copies (bits differ from list positions or live in two namespaces)")
 MODELLED_NOT_VERIFIED = [
+    "C10: taxa WITHOUT a label are inside the model since wave 2: in its label store the empty string stands for `no label` (None) - "
+    "theorem unlabelled_member_spec: no non-empty query matches it, it is rendered as the empty token; labels that ARE the empty string "
+    "and None as a QUERY label stay outside (the latter only at kernel level: unlabelled_spec + differential op matcho).  A sort that "
+    "list.sort refuses (TypeError ordering None) is modelled as a refusal plus the member order CPython left behind, which the harness "
+    "reports to the model (op sortx; sort_refused_spec: any rearrangement accepted, bits untouched) - the order itself is not predicted",
     "C10: Taxon objects are opaque ids with a string label.  Labels are non-empty strings over all of Unicode; the case folding is "
     "str.lower as tables regenerated from the running interpreter (Gen/C10Lower.lean: offset ranges, the one two-character result, the "
     "Final_Sigma context rule) - equality with CPython is differential-tested on every generated label, proved only in the form "
-    "case_folding_latin1 (closed form on ASCII/Latin-1) and case_folding_wide (the sigma rule as stated).  Taxa WITHOUT a label "
-    "(label None) are not in the model: such histories are run on the implementation and judged by the oracle only (an unlabelled "
-    "member matches no query, keeps its bit; sort may refuse with TypeError and leave a partial order; renderings are not judged "
-    "because an unlabelled taxon has no name).  None as a QUERY label, the empty label, lone surrogates, negative bitmasks, "
+    "case_folding_latin1 (closed form on ASCII/Latin-1) and case_folding_wide (the sigma rule as stated).  For unlabelled taxa the oracle does not judge "
+    "renderings (an unlabelled taxon has no name).  None as a QUERY label, the empty label, lone surrogates, negative bitmasks, "
     "annotations and TaxonNamespacePartition/Mapping are outside model and check",
     "C10: custom sort keys: the six key functions of SORT_KEYS are modelled (label, lower-cased label, length, accession index, "
     "(length, label) tuple, constant); sort_key_perm/sorted/stable hold for ANY key function with totally pre-ordered values, but a "
@@ -59,6 +62,10 @@ EXPLANATION = ("Theorems about the state machine the driver runs, for arbitrary 
                "preserve_spaces or quote_underscores); remove_first_spec (first_match_only=True: the TypeError refusal of the "
                "code as it is, and the documented first-match removal); case folding: labelMatches_iff, case_folding_latin1 (closed "
                "form, idempotent on ASCII/Latin-1), case_folding_wide (Final_Sigma rule), in_scope_match; immutable_spec(+_history); "
+               "wave 2: add_taxa_repeats_spec (an iterable mentioning taxa more than once: every newcomer listed once, one bit each, in order of "
+               "first mention, counter grows by the number of newcomers), add_taxa_mention_twice, unlabelled_member_spec (a member without "
+               "a label - the empty label of the store - matches no non-empty query under either case setting, in every lookup op; empty "
+               "token), sort_refused_spec (list.sort's TypeError with an unlabelled member: when, and that only the order may change); "
                "tie A bridges: kernel_taxon_bitmask, kernel_all_taxa_bitmask, kernel_bitstring, kernel_btl, kernel_btl_loop, "
                "kernel_newick (the kernels regenerated from taxonmodel.py / bitprocessing.py / nexusprocessing.py equal the model's). "
                "None is _partial.")
@@ -129,12 +136,17 @@ def b01(b):
     return "1" if b else "0"
 
 
+def lab6(l):
+    """a label a Taxon is created or relabelled with: in the model's label store the empty string stands for "no label" (None)"""
+    return hex6("" if l is None else l)
+
+
 def enc_op(op):
     k = op[0]
     if k == "mk":
-        return ["mk", hex6(op[1])]
+        return ["mk", lab6(op[1])]
     if k == "mkns":
-        return ["mkns", b01(op[1])] + [("T%d" % x) if isinstance(x, int) else ("L" + hex6(x)) for x in op[2]]
+        return ["mkns", b01(op[1])] + [("T%d" % x) if isinstance(x, int) else ("L" + lab6(x)) for x in op[2]]
     if k in ("append", "remove", "sbits"):       # legacy / deprecated aliases: the same model op
         return [{"append": "add", "remove": "rm", "sbits": "bits"}[k], str(op[1]), str(op[2])]
     if k == "gtbm":
@@ -150,11 +162,13 @@ def enc_op(op):
                 "-" if op[4] is None else "T" + ",".join(str(t) for t in op[4]),
                 "-" if op[5] is None else "L" + ",".join(hex6(l) for l in op[5])]
     if k == "mknsimm":
-        return ["mknsimm", b01(op[1])] + [("T%d" % x) if isinstance(x, int) else ("L" + hex6(x)) for x in op[2]]
+        return ["mknsimm", b01(op[1])] + [("T%d" % x) if isinstance(x, int) else ("L" + lab6(x)) for x in op[2]]
     if k == "copykw":
         return ["copykw", str(op[1]), cflag(op[2]), cflag(op[3])]
     if k == "scoped":
         return ["scoped", str(op[1])]
+    if k == "sortx":
+        return ["sortx", str(op[1])] + [str(t) for t in op[2]]
     if k == "ltm":
         return ["ltm", str(op[1]), cflag(op[2]), hex6(op[3])]
     if k in ("add", "rm", "del", "bm", "acc", "in", "btl", "bits"):
@@ -162,9 +176,9 @@ def enc_op(op):
     if k in ("addtaxa", "tbm"):
         return [k, str(op[1])] + [str(t) for t in op[2]]
     if k == "new":
-        return ["new", str(op[1]), hex6(op[2])]
+        return ["new", str(op[1]), lab6(op[2])]
     if k == "newtaxa":
-        return ["newtaxa", str(op[1])] + [hex6(l) for l in op[2]]
+        return ["newtaxa", str(op[1])] + [lab6(l) for l in op[2]]
     if k in ("rmlf", "dlf"):       # the 5th field (which behaviour was observed) is added by run_history
         return [k, str(op[1]), cflag(op[2]), hex6(op[3])] + ([b01(op[4])] if len(op) > 4 else [])
     if k in ("req", "rml", "dl", "get", "find", "has"):
@@ -176,7 +190,7 @@ def enc_op(op):
     if k in ("copy", "shallow"):
         return ["copy", str(op[1])]
     if k == "relabel":
-        return ["relabel", str(op[1]), hex6(op[2])]
+        return ["relabel", str(op[1]), lab6(op[2])]
     if k == "gets":
         return ["gets", str(op[1]), cflag(op[2]), b01(op[3])] + [hex6(l) for l in op[4]]
     if k in ("hasall", "lbm"):
@@ -448,7 +462,7 @@ class World(object):
             for t in ns:
                 i = safe_index(ns, t)
                 i = "?" if i is None else str(i)
-                ms.append("%s.%s.%s" % (self.tid.get(id(t), "?"), i, hex6(t.label)))
+                ms.append("%s.%s.%s" % (self.tid.get(id(t), "?"), i, lab6(t.label)))
             out.append("m%sc%s:%s" % (b01(ns.is_mutable), b01(ns.is_case_sensitive), ",".join(ms)))
         return "/".join(out)
 
@@ -1002,6 +1016,9 @@ def in_scope(l):
     return isinstance(l, str) and l != "" and not any(0xD800 <= ord(c) <= 0xDFFF for c in l)
 
 
+CREATES = ("mk", "mkns", "mknsimm", "new", "relabel", "newtaxa")
+
+
 def op_labels(op):
     k = op[0]
     if k == "mk":
@@ -1032,6 +1049,7 @@ def run_history(ctx, dendropy, opgen, pending, fixed_ops=None, kind="random", co
     ops, outs, mops = [], [], []
     orc = Oracle(ctx, w, ops)
     k = 0
+    refused_sort = False
     while True:
         if fixed_ops is not None:
             if k >= len(fixed_ops):
@@ -1068,6 +1086,13 @@ def run_history(ctx, dendropy, opgen, pending, fixed_ops=None, kind="random", co
         if op[0] == "tbmkw" and op[4] is None and op[5] is None and isinstance(raw, TypeError) \
                 and not isinstance(raw, w.err.ImmutableTaxonNamespaceError):
             ret = "TypeError"       # neither taxa= nor labels=: get_taxa() refuses the call
+        if op[0] in ("sort", "sortk") and isinstance(raw, TypeError) and not isinstance(raw, w.err.ImmutableTaxonNamespaceError):
+            # list.sort refused to order None against a string and left the members in a partial order of its own (which one depends
+            # on the interpreter's merge): the model is given the refusal together with the order observed (op sortx, theorem
+            # sort_refused_spec: any rearrangement of the members is accepted, nothing else changes)
+            refused_sort = True
+            ret = "TypeError"
+            mop = ["sortx", op[1], [w.tid.get(id(t), 10 ** 9) for t in w.nss[op[1]]]]
         mops.append(mop)
         outs.append(ret + " # " + w.dump())
         try:
@@ -1087,7 +1112,10 @@ def run_history(ctx, dendropy, opgen, pending, fixed_ops=None, kind="random", co
     ctx.case([enc_op(o) for o in ops], nontrivial, sample={"ops": ops[:12], "n_ops": len(ops)}, kind=kind)
     for o in ops:
         ctx.count("op:" + o[0])
-    scoped = all(in_scope(l) for o in ops for l in op_labels(o))
+    # labels a Taxon is given may be None (no label: the empty label of the model); query labels must be in-scope strings
+    scoped = all((l is None and o[0] in CREATES) or in_scope(l) for o in ops for l in op_labels(o))
+    if refused_sort:
+        ctx.count("histories with a sort refused because of an unlabelled member (model told the order left behind)")
     if compare is None:
         compare = scoped
     if compare and not scoped:
@@ -1095,7 +1123,7 @@ def run_history(ctx, dendropy, opgen, pending, fixed_ops=None, kind="random", co
     if compare:
         pending.append((hist_line(mops), ops, outs))
     else:
-        ctx.count("histories with a label outside the model's scope (None, empty, surrogate): implementation + oracle only")
+        ctx.count("histories outside the model's scope (None as a query, empty label, surrogate, refused sort, incoherent state): implementation + oracle only")
     return orc
 
 
